@@ -7,7 +7,7 @@ import threading
 import vlib
 
 # event codes (harness/cmd/c03/main.go, Corr/C03.v)
-MSG, BAN, UNBAN, BLACK, UNBLACK, EXPIRE, DELETE, RATE, CLOSE, OPEN, REKEY, REGISTER, BADJSON, DELANON, CORRUPT, RESTART, BLACKC, UNBLACKC, BANLAPSE, LAND, SETREC, WHITE, UNWHITE, BODY, OVERLAP, BANPERM, TEMPLAPSE, BLACKW, UNBLACKW, BLACKLAPSE = range(30)
+MSG, BAN, UNBAN, BLACK, UNBLACK, EXPIRE, DELETE, RATE, CLOSE, OPEN, REKEY, REGISTER, BADJSON, DELANON, CORRUPT, RESTART, BLACKC, UNBLACKC, BANLAPSE, LAND, SETREC, WHITE, UNWHITE, BODY, OVERLAP, BANPERM, TEMPLAPSE, BLACKW, UNBLACKW, BLACKLAPSE, CLEANUP = range(31)
 A, B, E = 1, 2, 3          # clients registered by the setup prefix; E's credentials are expired
 UNKNOWN = 9001
 
@@ -228,6 +228,11 @@ def perm_ban_cases():
     out.append(case_of(many + [msg(7, A)] + reach + nest([msg(k, UNKNOWN) for k in range(2, 7)] + [msg(7, A, key=-2)], [msg(1, UNKNOWN)]) + after,
                        slots=slots, addrs=(0,)))
     out.append(case_of(many + reach + [msg(1, UNKNOWN)] + after, slots=slots, addrs=(0,)))
+    # the periodic cleanup after the configured BanDuration: an operator ban that is longer, an automatic one, a permanent one
+    out.append(case_of(SETUP2 + [msg(1, A), [BAN, 0], [CLEANUP, 0], msg(1, A, key=-2), msg(1, 0, new=1), msg(1, A), msg(2, B), msg(2, B, key=-2),
+                                 [CLEANUP, 0], msg(1, 0, new=1), [TEMPLAPSE, 0], [CLEANUP, 0], msg(1, A), msg(1, A, key=-2)]))
+    out.append(case_of(SETUP2 + [msg(1, UNKNOWN)] * 5 + [[CLEANUP, 0], msg(1, 0, new=1), [BAN, 0], [CLEANUP, 0], msg(1, A), [UNBAN, 0], [CLEANUP, 0], msg(1, A)]))
+    out.append(case_of(SETUP2 + [[BANPERM, 0], [CLEANUP, 0], msg(1, 0, new=1), [BAN, 1], [CLEANUP, 1], [CLEANUP, 0], msg(2, B), [RESTART, 0], [OPEN, 2, 1], msg(2, B)]))
     # plain histories: permanent survives the end of temporary periods, a later temporary BanIP, short bans; a temporary one does not
     out.append(case_of(SETUP2 + [[BANPERM, 0], [BAN, 0], [TEMPLAPSE, 0], [BANLAPSE, 0, 0], [LAND, 0], msg(1, 0, new=1), msg(1, A), [RESTART, 0], [OPEN, 1, 0], msg(1, A)]))
     out.append(case_of(SETUP2 + [[BAN, 0], msg(1, A), [TEMPLAPSE, 0], msg(1, A), msg(1, A, key=-2), [BAN, 0], [BANPERM, 0], [TEMPLAPSE, 0], msg(1, A)]))
@@ -368,7 +373,7 @@ def random_case(rng, nconn=3, naddr=2, length=None):
         elif r < 0.975:
             ops.append([rng.choice([WHITE, UNWHITE]), rng.randrange(naddr), rng.randrange(2)])
         elif r < 0.98:
-            c = rng.choice([BANPERM, TEMPLAPSE, BLACKW, UNBLACKW, BLACKLAPSE])
+            c = rng.choice([BANPERM, TEMPLAPSE, BLACKW, UNBLACKW, BLACKLAPSE, CLEANUP, CLEANUP])
             ops.append([c, rng.randrange(naddr)] + ([rng.randrange(2)] if c == BLACKW else [rng.randrange(3), 0] if c == BLACKLAPSE else []))
         else:
             ops.append([BADJSON, k])
@@ -428,7 +433,7 @@ def enc_ev(op, st):
         return [OPEN, op[1], op[2] + 50 * st.get("ea", 0)]     # a peer whose zone survives extractIP is another address for every gate
     if c in (WHITE, UNWHITE, BLACKLAPSE):
         return [c, op[1], op[2]]
-    if c in (BANPERM, TEMPLAPSE, BLACKW, UNBLACKW):
+    if c in (BANPERM, TEMPLAPSE, BLACKW, UNBLACKW, CLEANUP):
         return [c, op[1]]
     if c == BLACK:
         return [BLACK, op[1]]
@@ -624,7 +629,7 @@ def run(ctx, only_cases=None):
     for c in cases:
         for op in c["ops"]:
             kinds[op[0]] = kinds.get(op[0], 0) + 1
-    names = ["msg", "ban", "unban", "blacklist", "unblacklist", "expire", "delete", "rate", "close", "open", "rekey", "register", "badjson", "delete_anonymous", "corrupt_stored_credential", "restart", "blacklist_cidr", "unblacklist_cidr", "ban_lapse", "async_unban_lands", "set_record", "whitelist", "unwhitelist", "body", "overlap", "ban_permanent", "temporary_period_over", "blacklist_wide", "unblacklist_wide", "blacklist_entry_lapses"]
+    names = ["msg", "ban", "unban", "blacklist", "unblacklist", "expire", "delete", "rate", "close", "open", "rekey", "register", "badjson", "delete_anonymous", "corrupt_stored_credential", "restart", "blacklist_cidr", "unblacklist_cidr", "ban_lapse", "async_unban_lands", "set_record", "whitelist", "unwhitelist", "body", "overlap", "ban_permanent", "temporary_period_over", "blacklist_wide", "unblacklist_wide", "blacklist_entry_lapses", "cleanup_tick"]
     ctx.coverage.update({
         "evaluations": len(cases), "distinct_nontrivial": len(nontrivial),
         "exhaustive": bool(exhaustive),
